@@ -264,7 +264,15 @@ package sqlite
 //@ ensures err == nil ==> result != nil
 
 //@ func (*SqliteStoreWorker).searchPromises
-//@ props C16 C17 C02 C20
+//@ props C16 C17 C02 C20 C14
+// result wiring (C14): every scanned row is returned, in scan order; the cursor value is the last row's sort id
+//@ loop 3 invariant rowsReturned == len(records)
+//@ site loop 3 backedge assert lastSortId == record.SortId && rowsReturned == len(records)
+//@ site return assert result0 != nil ==> result0.Kind == t_aio.SearchPromises && result0.SearchPromises != nil && result0.SearchPromises.RowsReturned == rowsReturned && sameslice(result0.SearchPromises.Records, records) && result0.SearchPromises.LastSortId == lastSortId
+// the arguments of the search statement (C14): the id pattern with every * turned into the LIKE wildcard,
+// the state filter as a bit mask of the requested states
+//@ loop 1 invariant rangeindex + 1 <= len(cmd.States) && mask == maskprefix(cmd.States, rangeindex + 1)
+//@ site call Query assert id == replaceall(cmd.Id, "*", "%") && mask == mask(cmd.States)
 //@ nopanic C13
 //@ ghostdb store
 //@ requires cmd != nil
@@ -283,7 +291,12 @@ package sqlite
 //@ ensures err == nil ==> result != nil
 
 //@ func (*SqliteStoreWorker).searchSchedules
-//@ props C16 C17 C02 C20
+//@ props C16 C17 C02 C20 C14
+// result wiring (C14): every scanned row is returned, in scan order; the cursor value is the last row's sort id
+//@ loop 2 invariant rowsReturned == len(records)
+//@ site loop 2 backedge assert lastSortId == record.SortId && rowsReturned == len(records)
+//@ site return assert result0 != nil ==> result0.Kind == t_aio.SearchSchedules && result0.SearchSchedules != nil && result0.SearchSchedules.RowsReturned == rowsReturned && sameslice(result0.SearchSchedules.Records, records) && result0.SearchSchedules.LastSortId == lastSortId
+//@ site call Query assert id == replaceall(cmd.Id, "*", "%")
 //@ nopanic C13
 //@ ghostdb store
 //@ requires cmd != nil
